@@ -31,8 +31,9 @@ def load(ctx, cfg):
               "load-table-equal")
     ctx.check(ctx.eq(g.elements_added, f.elements_added), "load-count")
     conds = []
+    t2.hf = t.hf
     for b, fp, cnt in after:
-        i1, i2 = g._indicies_from_fingerprint(fp)
+        i1, i2 = c03.candidates(t2, fp)
         conds.append(ctx.or_(ctx.eq(i1, b), ctx.eq(i2, b)))
     ctx.check(ctx.and_(conds), "load-inv-candidate-bucket")
     ctx.check(all(len(b) <= g.bucket_size for b in g.buckets), "load-inv-bucket-size")
